@@ -33,9 +33,15 @@ def cidSet (plain : Bool) (wire : List (String × Int)) : Int :=
 def effConfig (plain : Bool) (user : Config) (wire : List (String × Int)) : Config :=
   if plain then populateConfig user else specConfig user (populate (toParamList wire))
 
+/-- the per-kind record `newFlowController` consults (none for the plain client) -/
+def effAdv (plain : Bool) (wire : List (String × Int)) : Option OwnParams :=
+  if plain then none else specStreamAdv (populate (toParamList wire))
+
 /-- enforced limits as the code derives them, model view / ghost view -/
-def St.enfModel (s : St) : Limits := enforced (effConfig s.plain s.user s.mWire) (cidSet s.plain s.mWire)
-def St.enfGhost (s : St) : Limits := enforced (effConfig s.plain s.user s.gWire) (cidSet s.plain s.gWire)
+def St.enfModel (s : St) : Limits :=
+  enforced (effConfig s.plain s.user s.mWire) (effAdv s.plain s.mWire) (cidSet s.plain s.mWire)
+def St.enfGhost (s : St) : Limits :=
+  enforced (effConfig s.plain s.user s.gWire) (effAdv s.plain s.gWire) (cidSet s.plain s.gWire)
 
 /-- sections of the read-back text: `name: body | name: body …` -/
 def sections (impl : String) : List (String × String) :=
@@ -141,6 +147,17 @@ def readbackMonitors (s : St) (impl : String) : List Fail := Id.run do
     for (k, adv, e) in uncovered a enfI do
       let cls := if known.any (fun (k', _, e') => k' == k && e' == e) then classOfKind k else "-"
       fails := fails ++ [("no_local_error_within_advertised", cls, s!"read-back: {k} advertised {adv} but the component enforces {e}: a peer at the advertised boundary is answered with a local error")]
+    -- (e) the stream-count limits are enforced EXACTLY as advertised (a larger enforced value lets the peer open
+    --     streams beyond the MAX_STREAMS it was told without STREAM_LIMIT_ERROR)
+    for (k, adv, e) in [("imsb", a.imsb, enfI.streamsBidi), ("imsu", a.imsu, enfI.streamsUni)] do
+      if e > adv then
+        fails := fails ++ [("stream_limits_exactly_advertised", "-", s!"read-back: {k} advertised {adv} but the streams map admits {e} streams: the peer can exceed the limit it was told")]
+    -- (f) the receive windows are EXACTLY the advertised ones (a larger local window is never refilled in time:
+    --     the peer has used up what it was told before 25% of the local window is consumed, and stalls)
+    for (k, adv, e) in [("imd", a.imd, enfI.connData), ("imsdbl", a.bl, enfI.streamBidiLocal),
+                        ("imsdbr", a.br, enfI.streamBidiRemote), ("imsdu", a.uni, enfI.streamUni)] do
+      if e > adv then
+        fails := fails ++ [("windows_exactly_advertised", "-", s!"read-back: {k} advertised {adv} but the flow controller starts with a window of {e}: the window update is due only after {e - (3 * e) / 4} bytes were consumed")]
   return fails
 
 def exMonitors (s : St) (ex : Ex) (impl : String) : List Fail :=
@@ -157,6 +174,8 @@ def exMonitors (s : St) (ex : Ex) (impl : String) : List Fail :=
         | some ev => findingClass ex ev
         | none => "-"
     [("no_local_error_within_advertised", cls, s!"{impl} (advertised {fmtAdv a})")]
+  else if impl.startsWith "stall" then
+    [("credit_renewed", "-", s!"the peer used up the advertised credit, the application read everything, and no window update came: {impl} (advertised {fmtAdv a})")]
   else
     match p.pre with
     | some r => if impl == r then [] else [("peer_can_use_full_limit", "-", s!"expected {r}, got {impl}")]
@@ -186,7 +205,7 @@ def step (s : St) (op impl : String) : St × StepOut :=
     let ownTxt := fmtOwn own
     let wireSec := (sectionOf impl "wire").getD ""
     let iscid := (fieldOf wireSec "iscid").getD ""
-    let model := s!"own: {ownTxt} | qlog: {ownTxt} | wire: {wireSec} | peer: {fmtOwn (peerView s.modelWire)} iscid={iscid} | enf: {fmtEnf (effConfig s.plain s.user s.mWire) (cidSet s.plain s.mWire)}"
+    let model := s!"own: {ownTxt} | qlog: {ownTxt} | wire: {wireSec} | peer: {fmtOwn (peerView s.modelWire)} iscid={iscid} | enf: {fmtEnf (effConfig s.plain s.user s.mWire) (effAdv s.plain s.mWire) (cidSet s.plain s.mWire)}"
     let cov := if (uncovered (advOf s.modelWire) s.enfModel).isEmpty then "readback:covered" else "readback:uncovered"
     (s, { model := model, tags := ["readback", cov], fails := readbackMonitors s impl })
   | "ex" :: rest =>
